@@ -122,7 +122,8 @@ def run(tier):
     v.coverage.update({
         "evaluations": sum(tot.get(k, 0) for k in ("hist.component_tuples", "hist.epoch_cases", "hist.sequence_steps",
                                                    "hist.buffer_year_fills", "hist.pair_histories", "hist.shared_steps",
-                                                   "hist.manager_steps", "calendar.epoch_seconds")),
+                                                   "hist.manager_steps", "calendar.epoch_seconds", "c09.clock.setNow", "c09.clock.getNow",
+                                                   "c09.clock.loop", "c09.clock.forceSync", "c09.clock.setup", "registry.name_lookups")),
         "distinct_nontrivial": tot.get("hist.sequences", 0) + tot.get("hist.buffer_year_fills", 0),
         "rule": "all under ASan+UBSan (report-and-continue, every report block is a witness), crash journal and CPU-budget hang "
                 "detector: (1) every public factory/accessor of the value types on the product of boundary component values "
@@ -137,7 +138,12 @@ def run(tier):
                 "generated afresh by the real compiler from the shipped Zone/Rule lines, from tzdata 2025b and from data/features.zi (which has a zone-year "
                 "needing all five basic slots) (the compiler's own "
                 "ZoneSpecifier decides each recorded size), every year 2000..2049; (4) the C08 histories without "
-                "shadow. distinct = distinct sequences + distinct (zone, year, pass) fills." % (3 if q else 4),
+                "shadow; (5) SystemClock / SystemClockLoop under random orders of setNow/getNow/loop/forceSync/setup from 14 counter "
+                "bases (0 .. ULONG_MAX), arbitrary advances and reference/backup clocks answering anything (all four wirings), in the "
+                "-O1 and -O0 sanitizer builds, with a logical step bound on counter reads (a million reads while time stands still = "
+                "the operation does not terminate); (6) name lookups in both full shipped registries reversed and shuffled through "
+                "the step-counting, bounds-recording registry monitor (non-termination and out-of-registry reads only). "
+                "distinct = distinct sequences + distinct (zone, year, pass) fills." % (3 if q else 4),
         "samples": samples[:6] + [{"max_high_water": maxima.get("hist.max_high_water")}],
         "counters": tot,
         "maxima": maxima,
